@@ -173,7 +173,8 @@ class Scale(EnvironmentFilter):
             for interaction in chain(fitting_interactions, remaining_interactions):
                 context = interaction['context']
                 for i,(shift,scale) in scaling_tuples:
-                    context[i] = (context[i]+shift)*scale
+                    if isinstance(context[i],(int,float)):
+                        context[i] = (context[i]+shift)*scale
                 yield interaction
 
         if is_sparse_context:
@@ -181,15 +182,16 @@ class Scale(EnvironmentFilter):
             for interaction in chain(fitting_interactions, remaining_interactions):
                 context = interaction['context']
                 for k in scaling_dict.keys() & context.keys():
-                    (shift,scale) = scaling_dict[k]
-                    context[k] = (context[k]+shift)*scale
+                    if isinstance(context[k],(int,float)):
+                        (shift,scale) = scaling_dict[k]
+                        context[k] = (context[k]+shift)*scale
                 yield interaction
 
         elif is_value_context:
             (shift,scale) = list(scaling_vals)[0]
             for interaction in chain(fitting_interactions, remaining_interactions):
                 new = interaction.copy()
-                if new['context'] is not None:
+                if isinstance(new['context'],(int,float)):
                     new['context'] = (new['context']+shift)*scale
                 yield new
 
